@@ -1310,8 +1310,12 @@ pub fn gen_unmanaged(rng: &mut Rng, profile: &str, thorough: bool) -> UScenario 
         _ => Ctor::FromVec { n: max_size },
     };
     let n_actors = rng.range(1, if thorough { 6 } else { 4 });
-    let allow_close = profile == "C12";
-    let mut close_budget = if allow_close && rng.below(100) < 80 { 1 } else { 0 };
+    // C12: close() anywhere, sometimes from two threads at once; C10: a timed waiter may meet close()
+    let mut close_budget = match profile {
+        "C12" => *rng.pick(&[0u32, 1, 1, 1, 2]),
+        "C10" => *rng.pick(&[0u32, 0, 1]),
+        _ => 0,
+    };
     let mut actors = Vec::new();
     for _ in 0..n_actors {
         let n_ops = rng.range(1, if thorough { 10 } else { 6 });
